@@ -1,4 +1,5 @@
-(* NoPanicPutCell.v — C06: Heap::put_cell / maybe_put_cell keep [wfm] and never reach site 11 *)
+(* NoPanicPutCell.v — C06: Heap::put_cell / maybe_put_cell keep [wfm] and never reach site 11, nor
+   site 12 on a datum ([cell_is_datum]: no procedure / continuation / macro object inside) *)
 From Coq Require Import Lia List.
 From MW Require Import Model.Base Model.F64 Model.Num Model.Datum Model.TransformDef Model.Transform
   Model.VmTypes Model.Heap Model.Gc Model.VmBase Model.Compile Model.Vm
@@ -51,14 +52,14 @@ Qed.
 
 Definition lwfl (s : vm) (l : list vcell) : Prop := forall v, In v l -> vwf s v.
 
-Theorem maybe_put_cell_mpost c : forall s, wfm s -> mpost s (maybe_put_cell (hp s) (st s) c).
+Theorem maybe_put_cell_mpost c : cell_is_datum c = true -> forall s, wfm s -> mpost s (maybe_put_cell (hp s) (st s) c).
 Proof.
-  induction c as [c Hnp Hnv|ca cd IHa IHd|l HF] using cell_ind2; intros s W.
+  induction c as [c Hnp Hnv|ca cd IHa IHd|l HF] using cell_ind2; intros D s W.
   - assert (R : forall v, vwf s v -> mpost s (Ok (v, hp s, st s))).
     { intros v Hv. cbn [mpost]. pose proof (np_hmaybe_put VNil s W I) as H.
       unfold hmaybe_put, heap_maybe_put in H. cbn [npost] in H. destruct H as (H1 & H2 & _).
       split; [exact H1|split; [exact H2|]]. eapply vwf_grow; [apply grow_grow0, H2|exact Hv]. }
-    destruct c; cbn [maybe_put_cell]; try (apply R; exact I); try reflexivity.
+    destruct c; cbn [maybe_put_cell]; try (apply R; exact I); try (cbn [cell_is_datum] in D; discriminate D).
     { exfalso. now apply (Hnp c1 c2). }
     { (* string *)
       pose proof (np_str_new s0 s W) as H1. unfold str_new in H1.
@@ -72,13 +73,13 @@ Proof.
       destruct (hput_upd (VSym s0) s W I p h1 E) as (W2 & G2 & (q & ->)).
       cbn [mpost]. split; [exact W2|split; [exact G2|exact I]]. }
     { exfalso. now apply (Hnv l). }
-  - cbn [maybe_put_cell].
-    pose proof (IHa s W) as Ha. destruct (maybe_put_cell (hp s) (st s) ca) as [[[va h1] x1]| | |]; cbn [bind mpost] in *; auto.
+  - cbn [cell_is_datum] in D. apply andb_prop in D. destruct D as [Da Dd]. cbn [maybe_put_cell].
+    pose proof (IHa Da s W) as Ha. destruct (maybe_put_cell (hp s) (st s) ca) as [[[va h1] x1]| | |]; cbn [bind mpost] in *; auto.
     destruct Ha as (W1 & G1 & V1).
     destruct (match va with VPtr _ => (va, h1) | _ => heap_put h1 va end) as [pa h2] eqn:E2.
     destruct (toptr_upd va (upd s h1 x1) W1 V1 pa h2 E2) as (W2 & G2 & (xa & ->)).
     rewrite upd_upd, st_upd in *.
-    pose proof (IHd (upd s h2 x1) W2) as Hd. rewrite hp_upd, st_upd in Hd.
+    pose proof (IHd Dd (upd s h2 x1) W2) as Hd. rewrite hp_upd, st_upd in Hd.
     pose proof (grow_trans _ _ _ G1 G2) as G12.
     apply (mpost_step s h2 x1 _ W2 G12).
     destruct (maybe_put_cell h2 x1 cd) as [[[vd h3] x3]| | |]; cbn [bind mpost] in *; auto.
@@ -90,33 +91,35 @@ Proof.
     destruct (hput_upd (VPair xa xd) (upd s h4 x3) W4 I pp h5 E5) as (W5 & G5 & (q & ->)).
     rewrite upd_upd, st_upd in *. cbn [mpost]. split; [exact W5|split; [|exact I]].
     eapply grow_trans; [exact G3|]. eapply grow_trans; eassumption.
-  - cbn [maybe_put_cell].
+  - cbn [cell_is_datum] in D. cbn [maybe_put_cell].
     set (elems := fix elems (h : heap) (s : store) (l : list cell) (acc : list vcell) {struct l} :
                     out (list vcell * heap * store) :=
                     match l with
                     | [] => Ok (rev acc, h, s)
                     | x :: r => do (v, h1, s1) <- maybe_put_cell h s x; elems h1 s1 r (v :: acc)
                     end).
-    assert (HE : forall l0, Forall (fun c => forall s, wfm s -> mpost s (maybe_put_cell (hp s) (st s) c)) l0 ->
+    assert (HE : forall l0, Forall (fun c => cell_is_datum c = true -> forall s, wfm s -> mpost s (maybe_put_cell (hp s) (st s) c)) l0 ->
+               forallb cell_is_datum l0 = true ->
                forall s acc, wfm s -> lwfl s acc ->
                match elems (hp s) (st s) l0 acc with
                | Ok (vs, h', x') => wfm (upd s h' x') /\ grow s (upd s h' x') /\ lwfl (upd s h' x') vs
                | Panic k => okp k | _ => True end).
-    { induction l0 as [|c r IHr]; intros Fa s0 acc W0 A0.
+    { induction l0 as [|c r IHr]; intros Fa Db s0 acc W0 A0.
       - cbn [elems]. pose proof (np_hmaybe_put VNil s0 W0 I) as H.
         unfold hmaybe_put, heap_maybe_put in H. cbn [npost] in H. destruct H as (H1 & H2 & _).
         split; [exact H1|split; [exact H2|]]. intros v Hv. apply in_rev in Hv.
         eapply vwf_grow; [apply grow_grow0, H2|apply A0, Hv].
       - cbn [elems]. inversion Fa as [|c0 r0 Hc Hr]; subst.
-        pose proof (Hc s0 W0) as H1. destruct (maybe_put_cell (hp s0) (st s0) c) as [[[vx hx] sx]| | |]; cbn [bind mpost] in *; auto.
+        cbn [forallb] in Db. apply andb_prop in Db. destruct Db as [Dc Dr].
+        pose proof (Hc Dc s0 W0) as H1. destruct (maybe_put_cell (hp s0) (st s0) c) as [[[vx hx] sx]| | |]; cbn [bind mpost] in *; auto.
         destruct H1 as (W1 & G1 & V1).
         assert (A1 : lwfl (upd s0 hx sx) (vx :: acc)).
         { intros v [<-|Hv]; [exact V1|]. eapply vwf_grow; [apply grow_grow0, G1|apply A0, Hv]. }
-        pose proof (IHr Hr (upd s0 hx sx) (vx :: acc) W1 A1) as H2. rewrite hp_upd, st_upd in H2.
+        pose proof (IHr Hr Dr (upd s0 hx sx) (vx :: acc) W1 A1) as H2. rewrite hp_upd, st_upd in H2.
         destruct (elems hx sx r (vx :: acc)) as [[[vs h'] x']| | |]; auto.
         rewrite upd_upd in H2. destruct H2 as (W2 & G2 & V2). split; [exact W2|split; [|exact V2]].
         eapply grow_trans; eassumption. }
-    pose proof (HE l HF s [] W (fun v (H : In v []) => match H with end)) as H1.
+    pose proof (HE l HF D s [] W (fun v (H : In v []) => match H with end)) as H1.
     destruct (elems (hp s) (st s) l []) as [[[vs h1] x1]| | |]; cbn [bind mpost] in *; auto.
     destruct H1 as (W1 & G1 & V1).
     assert (Hl : forall j v, list_get vs j = Some v -> vwf (upd s h1 x1) v).
@@ -130,14 +133,14 @@ Proof.
     eapply grow_trans; [exact G1|]. eapply grow_trans; eassumption.
 Qed.
 
-Theorem np_maybe_put_cell_m c s : wfm s -> npo s (maybe_put_cell_m c s) V.
+Theorem np_maybe_put_cell_m c s : cell_is_datum c = true -> wfm s -> npo s (maybe_put_cell_m c s) V.
 Proof.
-  intros W. unfold maybe_put_cell_m. pose proof (maybe_put_cell_mpost c s W) as H.
+  intros D W. unfold maybe_put_cell_m. pose proof (maybe_put_cell_mpost c D s W) as H.
   destruct (maybe_put_cell (hp s) (st s) c) as [[[v h] x]| | |]; cbn [mpost npost] in *; auto using grow_refl.
 Qed.
-Theorem np_put_cell_m c s : wfm s -> npo s (put_cell_m c s) (fun s' r => exists p, r = VPtr p).
+Theorem np_put_cell_m c s : cell_is_datum c = true -> wfm s -> npo s (put_cell_m c s) (fun s' r => exists p, r = VPtr p).
 Proof.
-  intros W. unfold put_cell_m, put_cell. pose proof (maybe_put_cell_mpost c s W) as H.
+  intros D W. unfold put_cell_m, put_cell. pose proof (maybe_put_cell_mpost c D s W) as H.
   destruct (maybe_put_cell (hp s) (st s) c) as [[[v h] x]| | |]; cbn [bind mpost npost] in *; auto using grow_refl.
   destruct H as (W1 & G1 & V1).
   assert (S : forall r h', (match v with VPtr _ => (v, h) | _ => heap_put h v end) = (r, h') ->
